@@ -1695,6 +1695,13 @@ def _walk_x(spec):
                     yield a
 
 
+def _m_wrapping_neg(eng, st, callee, args, ev):
+    ty = callee.get("impl_self")
+    if ty not in INT_BITS:
+        return NotImplemented
+    return mk_un("Neg", args[0], ty)
+
+
 def _m_checked_sub(eng, st, callee, args, ev):
     ty = callee.get("impl_self")
     if ty not in ("u8", "u16", "u32", "u64", "u128", "usize"):
@@ -2051,6 +2058,7 @@ for _t in ("u8", "i8", "u16", "i16", "u32", "i32", "u64", "i64", "u128", "i128",
     MODELS["core::num::<impl %s>::from_le_bytes" % _t] = _m_from_le_bytes
     MODELS["core::num::<impl %s>::from_be_bytes" % _t] = _m_from_be_bytes
     MODELS["core::num::<impl %s>::leading_zeros" % _t] = _m_leading_zeros
+    MODELS["core::num::<impl %s>::wrapping_neg" % _t] = _m_wrapping_neg
 
 
 # ---- pretty printing -------------------------------------------------------------------------
